@@ -569,7 +569,7 @@ where
                     quoted = true;
                 }
                 (None, b'\\') => escape = Some(Escape::Slash),
-                (None, c) if c.is_ascii_whitespace() => {
+                (None, c) if matches!(c, b' ' | b'\t' | b'\n') => {
                     if !result.is_empty() {
                         terminated_by_newline = c == b'\n';
                         break;
